@@ -5,7 +5,7 @@ import json
 import sqlite3
 
 from .. import codoncheck as cc, common, gen, rowcheck, sge
-from ..runner import Ctx, coq_bool, coq_dna, coq_eval, coq_list, coq_opt, coq_str, coq_z
+from ..runner import Ctx, coq_bool, coq_dna, coq_eval, coq_list, coq_opt, coq_str, coq_z, pool_map
 
 IMPORTS = ['Model.Base', 'Model.Pattern', 'Model.Views', 'Model.ViewsGlue']
 
@@ -382,10 +382,53 @@ def background_pam_seq(ctx: Ctx):
 MATCHERS = {'junction_codon_halves': lambda c: c.get('kind') == 'pam_mut_sgrna_id' and bool(c.get('junction_codon'))}
 
 
+def twin_case(d):
+    return d, sge.run_design(d)
+
+
+def twin_contig_stage(ctx: Ctx):
+    """The same design on two contigs of one run, PAM edits of the same guide names on both: the PAM columns of a targeton on the second
+    contig are those of its twin on the first (the registry of guide names is per contig).  Own generator state."""
+    import random
+    rng = random.Random(f'C07-twin-contig-{ctx.seed}')
+    designs = []
+    for _ in range(40 * ctx.n(8, 60)):
+        if len(designs) >= ctx.n(8, 60):
+            break
+        d = gen.gen_sge(rng, {'p_bg': 0.0, 'p_custom': 0.0, 'p_pam': 1.0, 'p_gtf': 0.8, 'p_table': 0.0, 'allow_junction_pam': False, 'n_pam': [2, 3, 4]})
+        if not d.get('pam') or not any(t.get('sgrna') for t in d['targetons']):
+            continue
+        d['extra_contigs'] = {}
+        d['clone_contig'] = 'chr2'
+        designs.append(d)
+    for d, r in pool_map(twin_case, designs, chunksize=2):
+        _twin_judge(ctx, d, r)
+
+
+def _twin_judge(ctx: Ctx, d, r):
+    ctx.evaluations += 1
+    ctx.count('twin_contig_designs')
+    if r['exit'] != 0:
+        ctx.violation('spec_violation', f"design repeated on a second contig refused: {r['exc']} {(r.get('exc_msg') or '')[:80]}", {'surface': 'file', 'kind': 'twin_contig', 'design': d})
+        return
+    for t in d['targetons']:
+        n1 = sge.sge_targeton_name(d['contig'], d['strand'], t)
+        n2 = sge.sge_targeton_name('chr2', d['strand'], t)
+        a, b = sge.all_meta_rows(r['files'], n1), sge.all_meta_rows(r['files'], n2)
+        key = lambda x: (x['mutator'], x['mut_position'], x['ref'], x['new'], x['pam_seq'], x['pam_mut_annot'], x['pam_mut_sgrna_id'], x['mseq'])
+        if a:
+            ctx.nontriv(('twin', common.sha(d), n1))
+        if sorted(map(key, a)) != sorted(map(key, b)):
+            x = next((k for k in sorted(map(key, a)) if k not in set(map(key, b))), None)
+            ctx.violation('spec_violation', f'twin contigs: the PAM columns of {n2} differ from those of {n1} (e.g. only on the first contig: {x and x[:7]})',
+                          {'surface': 'file', 'kind': 'twin_contig', 'design': d, 'targeton': n1})
+
+
 def run(ctx: Ctx):
     views(ctx)
     files(ctx)
     background_pam_seq(ctx)
+    twin_contig_stage(ctx)
     return {'rule': 'S-api: the real data/ddl.sql, insert_targeton_ppes and sql_select_meta executed in SQLite on generated exon tables (1-3 exons, both strands, '
                     'frames), 0-6 edits of 1-4 sgRNAs (incl. shifted targeton-level positions) and 3-12 mutations of length 0-8: every join column and the sgRNA '
                     'aggregate compared with the Coq model of the view, and with the spec of pam_mut_sgrna_id; S-file: random designs with 1-5 edits per targeton, '
@@ -406,6 +449,16 @@ def replay_known(ctx: Ctx, k: dict) -> bool:
 def replay(ctx: Ctx, path: str) -> int:
     with open(path) as fh:
         v = json.load(fh)
+    if v.get('case', {}).get('kind') == 'twin_contig':
+        common.use_repo()
+        d = v['case']['design']
+        n0 = len(ctx.violations)
+        _twin_judge(ctx, d, twin_case(d)[1])
+        if len(ctx.violations) > n0:
+            print(f'VIOLATION property=C07 replay={path}')
+            return 1
+        print('replay: property holds on this input now')
+        return 0
     c = v.get('case', {})
     ctx.known = []
     common.use_repo()
